@@ -345,7 +345,13 @@ func c15run(env *hs.Env, s c15session, yield func()) (r c15result, cl *hs.Client
 		}
 		r.Outs = append(r.Outs, out)
 		if cl.Hung {
-			r.Err = "hang"
+			// the watchdog of a wait fired: a goroutine stuck inside the library is a finding, a machine too
+			// busy to schedule the step in time is not
+			if _, lib := core.ClassifyHang(); len(lib) > 0 {
+				r.Err = "hang: " + strings.Join(lib, "; ")
+			} else {
+				r.Err = "watchdog"
+			}
 			return
 		}
 		if closed {
@@ -409,7 +415,7 @@ func c15mw() []wire.OptionFn {
 				// library had put into the connection's context (type map, parameters, remote address)
 				ctx = context.WithValue(context.WithValue(context.Background(), hs.ConnKey{}, hs.ConnOf(ctx)), c15userKey{}, user)
 			}
-			if m := wire.TypeMap(ctx); i == 1 && m != nil {
+			if m := wire.TypeMap(ctx); i == 1 && m != nil && !strings.HasPrefix(user, "noreg") { // (users "noreg..." leave their type map as the library made it)
 				m.RegisterType(&pgtype.Type{Name: "verifconn", OID: c15connOID, Codec: c15connCodec{tag: user}})
 			}
 			hs.ConnOf(ctx).CB("mw", i)
@@ -435,8 +441,53 @@ func c15optsBase(custom bool) []wire.OptionFn {
 	})}
 }
 
+// tlsGroup: fresh servers with certificates whose first TLS upgrades all happen at the same time (eight
+// clients send their SSLRequest together): whatever the server sets up on its first upgrade, it does not
+// do so in several connection goroutines at once (the race detector watches), and every client is served.
+func (ch c15) tlsGroup(c *core.Ctx) {
+	prog := &hs.Prog{Stmts: []*hs.Stmt{{ID: "t", Cols: textCols(1), Ops: []hs.Op{{K: "row", Vals: []any{"v"}}, {K: "complete", Tag: "SELECT 1"}}}}}
+	for round := 0; round < 6; round++ {
+		env := hs.Start(hs.Parse, wire.TLSConfig(hs.ServerTLS()))
+		start := make(chan struct{})
+		var wg sync.WaitGroup
+		errs := make([]string, 8)
+		for i := range errs {
+			wg.Add(1)
+			go func(i int) {
+				defer wg.Done()
+				<-start
+				t, reply, err := c11upgrade(env, &hs.Sess{Default: func(string) *hs.Prog { return prog }}, nil, false, 0)
+				if err != nil {
+					errs[i] = fmt.Sprintf("upgrade failed (reply %q): %v", reply, err)
+					return
+				}
+				if o, _ := t.step(append(pg.Startup([][2]string{{"user", fmt.Sprintf("tls%d", i)}}), pg.Query("t")...)); !strings.HasSuffix(pg.Types(mustMsgs(o)), "TDCZ") {
+					errs[i] = "session inside TLS not served: " + replyKinds(o)
+				}
+				t.tc.Close()
+				t.conn.CloseWrite()
+				t.conn.WaitClosed()
+			}(i)
+		}
+		close(start)
+		wg.Wait()
+		env.Stop()
+		c.Count("simultaneous_first_tls_upgrades", int64(len(errs)))
+		c.Eval(fmt.Sprintf("tls group %d", round), true)
+		for i, e := range errs {
+			if e != "" {
+				c.Violate("tls-group", "a client upgrading at the same time as others is not served as it is alone", fmt.Sprintf("round %d client %d: %s", round, i, e), nil)
+				return
+			}
+		}
+	}
+}
+
 func (ch c15) Run(c *core.Ctx) {
 	nb := ch.Batches(c.Tier)
+	if c.Batch%4 == 2 && c.Begin(70000000) {
+		ch.tlsGroup(c)
+	}
 	ngroups, reps := 640, 3
 	if c.Tier == "thorough" {
 		ngroups, reps = 20000, 5
@@ -460,6 +511,8 @@ func (ch c15) Run(c *core.Ctx) {
 				sessions[i].User = "reject_" + sessions[i].User // turned away by the first session middleware
 			case 2, 3:
 				sessions[i].User = "detach_" + sessions[i].User // its middleware detaches the context: whatever then fails, fails alone and together alike
+			case 4:
+				sessions[i].User = "noreg_" + sessions[i].User // registers nothing on its type map: values of the per-connection type are unknown to it, whoever was or is connected
 			}
 			if g%3 == 1 && rng.Intn(2) == 0 && len(sessions[i].Steps) > 0 {
 				// in every third group about half of the connections meet temporary read errors
@@ -473,6 +526,10 @@ func (ch c15) Run(c *core.Ctx) {
 		bad := false
 		for i, s := range sessions {
 			solo[i], _ = c15run(env, s, nil)
+			if solo[i].Err == "watchdog" {
+				c.Inconclusive("watchdog fired without a library-blocked goroutine (solo run)")
+				c.Finish()
+			}
 			if solo[i].Err != "" {
 				c.Violate("solo", "solo run failed: "+solo[i].Err, fmt.Sprintf("group %d session %d", g, i), cs)
 				bad = true
@@ -625,8 +682,12 @@ func (ch c15) Run(c *core.Ctx) {
 				c.Sample(map[string]any{"group": g, "sessions": n, "session_kinds": sessions[0].Kinds, "connection_switches_in_global_order": switches, "events": len(all)})
 			}
 			for i := range res {
+				if res[i].Err == "watchdog" {
+					c.Inconclusive("watchdog fired without a library-blocked goroutine (concurrent group)")
+					c.Finish()
+				}
 				if res[i].Err != "" {
-					c.Violate("concurrent-run", "concurrent run failed: "+res[i].Err, fmt.Sprintf("group %d session %d", g, i), cs)
+					c.Violate("concurrent-run", "concurrent run failed: "+core.NormDigits(res[i].Err), fmt.Sprintf("group %d session %d: %s", g, i, res[i].Err), cs)
 					continue
 				}
 				if res[i].Foreign != "" {
